@@ -35,5 +35,7 @@ def run(ctx):
                 "levels, restrict cubes carry both polarities (in canonical complement-edge form for BCDDs); the specification "
                 "folds and/or/xor over the cofactors of the listed variables resp. fixes the cube's literals.")
     n = estep.run(ctx, F, kinds=("bdd", "bcdd"), parts=("quant", "restrict", "subst"))
+    n += estep.run(ctx, F, kinds=("zbdd", "mtbdd"), parts=("restrict",))
+    estep.check_zbdd_restrict_base(ctx, F)
     ctx.floor("E-TABLE.step", "situations of the recursive step (quant, apply_quant, restrict)", n, 2500)
     ctx.not_decided = "construction of the substitution table (substitute_prepare, beyond its unit discipline), behaviour under memory exhaustion"
